@@ -1777,7 +1777,11 @@ const ruleText = "C12: one history = saved owners 1..3 of one owner type carryin
 	"4 saved targets per relation; links of database-only owners (and of Preload-ed in-memory owners) seeded with plain SQL before the first call; " +
 	"1-8 calls Append/Replace/Delete/Clear/Count/Find on db.Model(&owner).Association(rel) (single mode) or db.Model(&owners) (slice of 1-3 owner objects, []Owner or []*Owner, one argument per owner for Append/Replace), " +
 	"scoped or .Unscoped(), the history staying on one relation kind or mixing the five on the same object(s); values are fresh copies of saved targets (unlinked, linked to this owner, linked to another owner, twice in one call) or new unsaved targets (in Delete: an unsaved value that names no link), " +
-	"passed as pointers, []T, *[]T or []*T; has-one/belongs-to calls take one value per owner; in slice mode a has-one/has-many target is never given to two owners in one call nor moved between two in-memory owner objects. " +
+	"passed as pointers, []T, *[]T, []*T, a pointer followed by a slice, *[n]T, and for Delete also plain struct values or the owner's own relation field (&owner.Rel); now and then 11-13 values in one call; the same pointer twice; " +
+	"further relation shapes: composite keys (ID, Rev) with a zero part (has-many []*T, many-to-many []T), `references:` over a unique non-primary column (belongs-to, has-many), polymorphic has-one with polymorphicValue, renamed join columns, a soft-delete target (has-many), value and signed-integer foreign keys; " +
+	"each call goes through db, db.WithContext, Session{}, Session{NewDB}, Session{PrepareStmt}, Session{SkipHooks}, Begin..Commit or db.Transaction(func); Unscoped calls also as db.Unscoped()...Unscoped() (permanent delete of soft-delete targets); many-to-many Append/Replace of saved targets also behind Omit(\"Rel.*\"); " +
+	"per history Config.SkipDefaultTransaction, CreateBatchSize 1/2, QueryFields, FullSaveAssociations and a dialector without RETURNING; the owners slice also by value; Find into *[]T and *[]*T, and Count/Find with Where(..) on the chain and Find(out, conds); " +
+	"has-one/belongs-to calls take one value per owner; in slice mode a has-one/has-many target is never given to two owners in one call nor moved between two in-memory owner objects. " +
 	"After every call: all tables read with plain SQL equal a link-set model (cardinality per kind, targets survive unless Unscoped), Count() and Find() through the same object(s) equal the model, " +
 	"and the distinct non-zero keys in every in-memory relation field of every in-memory owner equal the model. " +
 	"non-trivial = at least 3 mutating calls, a Delete/Replace after an Append, and an already-linked or duplicate target handed over; distinct = setup + call list"
@@ -1813,6 +1817,7 @@ func TestC12(t *testing.T) {
 				mode = "slice"
 			}
 			classes["kind:"+r.Kind] = true
+			classes["rel:"+r.Name] = true
 			// the shape of the (repaired) hasone-zero-pointer finding must keep being generated
 			if r.Kind == hasOne && (s.Act == "delete" || s.Act == "clear") {
 				h.oneUnlinked = true
